@@ -1,6 +1,9 @@
 import PEval.Lemmas.Manager
 import PEval.Lemmas.ManagerSort
 import PEval.Properties.C13Tracking
+import PEval.Properties.C13Heap
+import PEval.Lemmas.ManagerAPLink
+import PEval.Properties.C13Scene
 /-!
 # C13 — scene scores pool the frame results; frame evaluation is history-independent
 
@@ -277,5 +280,69 @@ example : getGT (fresh (T := Nat) [fr0, fr1]) 300 75 = .ok none := by decide +ke
 example : (lastOut semEx (fresh [fr0, fr1]) opsEx).bind Out.track? = some 12 := by decide +kernel
 
 end Examples
+
+/-! ## transfer: the pooling theorems hold of the heap machine; the concrete AP is the AP of `Model/AP.lean`
+
+`Properties/C13Heap.lean` proves that the heap machine of /repo (`ManagerHeap.hrun`: references, explicit
+writes) refines `Manager.run`.  Through `heap_refines_manager` / `heap_scene_eq_manager_scene` every
+theorem above is a theorem about the heap machine; the pooling statement is spelled out.
+`Lemmas/ManagerAPLink.lean` proves that `Manager.apOf` (the transcription of `ap.py` used in
+`pooled_ap_perm_invariant`) computes the `ap` of `AP.apOf` (the model of properties C04/C08). -/
+
+section Transfer
+open PEval.ManagerHeap
+
+/-- Scene pooling on the heap machine: after any list of valid operations on a fresh manager the answer
+to a scene query pools, per label, the PURE evaluations (`pureDet`: filters, matcher and scores applied to
+the values the references held in the original store) of the `add`s performed, in call order, with the
+summed ground-truth counts — although `get_scene_result` re-reads the ground-truth frame of every stored
+result through its reference at query time. -/
+theorem heap_scene_eq_pooled_ops {Est OR C' T' : Type} (sem : HSem Est OR C' T') (hl : LabelsAgree sem)
+    (h : Heap Est) (ds : List Ref) (hv : DatasetValid h ds) (ops : List (HOp C'))
+    (hops : ∀ op ∈ ops, op.validIn h) :
+    ∃ sc, hlastOut sem (hfresh h ds) (ops ++ [.scene]) = some (.scene sc) ∧
+      ∀ l, l < sem.nLabels → ∀ ap : List Res → Nat → Option Rat,
+        sc.score ap l = ap ((addsDet (toSem sem) (ops.map (absOp h))).map (·.bucket l)).flatten
+          ((addsDet (toSem sem) (ops.map (absOp h))).map (·.gt l)).sum := by
+  refine ⟨_, heap_scene_eq_manager_scene sem hl h ds hv ops hops, ?_⟩
+  intro l hl' ap
+  rw [scene_eq_pooled _ _ l hl', ← stored_detection_history_free (toSem sem) (ds.map h.frame) (ops.map (absOp h))]
+  simp [List.map_map, Function.comp_def]
+
+/-- `Manager.apOf` IS the AP of the detection-metrics model: on the translation of a result list of
+`Model/AP.lean` (TP column = the weight `AP.classify` gives the result) it returns `Ap.ap` of
+`AP.apOf` — for every metric, mode, label list, threshold list and ground-truth count. -/
+theorem manager_apOf_eq_AP_apOf {tm : AP.TpMetric} {m : AP.Mode} {Tl : List AP.Label} {th : List Rat} {G : Nat}
+    {rs : List AP.Res} {a : AP.ApOut} (h : AP.apOf tm m Tl th G rs = .ok a) :
+    Manager.apOf 0 (rs.map (ofAP (tpWeight tm m Tl th))) G = a.ap :=
+  apOf_eq_AP_apOf h
+
+/-- order-independence of the pooled AP for the REAL `Ap` (`AP.apOf`: sort, classify, interpolate): two
+pools that are permutations of each other (frames added in another order) with pairwise distinct
+confidences have the same AP / APH -/
+theorem pooled_real_ap_perm_invariant {tm : AP.TpMetric} {m : AP.Mode} {Tl : List AP.Label} {th : List Rat} {G : Nat}
+    {rs₁ rs₂ : List AP.Res} (p : rs₁.Perm rs₂) (hd : rs₁.Pairwise (fun a b => a.conf ≠ b.conf))
+    {a₁ a₂ : AP.ApOut} (h₁ : AP.apOf tm m Tl th G rs₁ = .ok a₁) (h₂ : AP.apOf tm m Tl th G rs₂ = .ok a₂) :
+    a₁.ap = a₂.ap := by
+  rw [← apOf_eq_AP_apOf h₁, ← apOf_eq_AP_apOf h₂]
+  unfold Manager.apOf
+  rw [sortDesc_perm_eq (p.map _)]
+  unfold DistinctConf
+  rw [List.pairwise_map]
+  exact hd
+
+-- non-vacuity: a permuted pool with distinct confidences (TP, FP, unmatched), and its AP
+example : ([⟨1, 3, 2, some ⟨7, 2⟩, .val (some 0), 1, .default⟩, ⟨2, 2, 2, some ⟨8, 2⟩, .val (some 5), 1, .default⟩,
+      ⟨3, 1, 2, none, .val none, 1, .default⟩] : List AP.Res).Pairwise (fun a b => a.conf ≠ b.conf) := by
+  decide +kernel
+example : (AP.apOf .ap .centerDistance [2] [1] 2
+      [⟨3, 1, 2, none, .val none, 1, .default⟩, ⟨1, 3, 2, some ⟨7, 2⟩, .val (some 0), 1, .default⟩,
+       ⟨2, 2, 2, some ⟨8, 2⟩, .val (some 5), 1, .default⟩]).toOption.map (·.ap)
+    = (AP.apOf .ap .centerDistance [2] [1] 2
+      [⟨1, 3, 2, some ⟨7, 2⟩, .val (some 0), 1, .default⟩, ⟨2, 2, 2, some ⟨8, 2⟩, .val (some 5), 1, .default⟩,
+       ⟨3, 1, 2, none, .val none, 1, .default⟩]).toOption.map (·.ap) := by
+  decide +kernel
+
+end Transfer
 
 end PEval.C13
